@@ -3,6 +3,7 @@
   (see notes/NOTES-C18F.md for what each says and what is not proved)
 -/
 import BlocV.Proofs.Lemmas.FileMod
+import BlocV.Proofs.Lemmas.FileSeq
 import BlocV.Model.Mod.Sqlite
 
 namespace BlocV.Proofs.C18F
@@ -158,6 +159,39 @@ theorem file_write_read_roundtrip (w : World) (p : Path) (ds : List Bytes) (ns :
     rw [hrd.2, hr.2.2]
     simp
 
+/-- what a client has read -/
+def dataOf : Res → Bytes
+  | .rd _ d => d
+  | _ => []
+
+theorem slices_concat : ∀ (ns : List Int64) (D : Bytes),
+    ((slices D ns).map dataOf).flatten = D.take (ns.map (·.toInt.toNat)).sum := by
+  intro ns
+  induction ns with
+  | nil => intro D; simp [slices]
+  | cons n ns ih =>
+    intro D
+    simp only [slices, List.map_cons, List.flatten_cons, dataOf, List.sum_cons, ih]
+    rw [List.take_add]
+
+/-- **file_write_read_concat.** … in particular: whatever the chunking of the writes and whatever the chunking of the reads
+    (any positive counts), the concatenation of everything read is a prefix of the concatenation of everything written, and
+    it is ALL of it as soon as the counts add up to the size. -/
+theorem file_write_read_concat (w : World) (p : Path) (ds : List Bytes) (ns : List Int64)
+    (hl : ∀ d ∈ ds, d.length < 4294967296) (hn : ∀ n ∈ ns, 0 < n.toInt) (hsum : ds.flatten.length ≤ (ns.map (·.toInt.toNat)).sum) :
+    let ops := [Op.open (some p) (some modeW)] ++ writeOps ds ++ [.close, .open (some p) (some modeR)] ++ readOps ns
+    (((run w ops).2.drop (ds.length + 3)).map dataOf).flatten = ds.flatten := by
+  intro ops
+  have h := (file_write_read_roundtrip w p ds ns hl hn).1
+  simp only [ops] at h ⊢
+  rw [h]
+  have e : ([Res.int 0] ++ ds.map (fun (d : Bytes) => Res.int d.length) ++ [Res.bool true, Res.int 0] ++ slices ds.flatten ns).drop (ds.length + 3)
+      = slices ds.flatten ns := List.drop_left' (by simp)
+  rw [e, slices_concat, List.take_of_length_le hsum]
+
+example : (∀ d ∈ [[(97 : UInt8), 0], [98]], d.length < 4294967296) ∧ (∀ n ∈ [(2 : Int64), 9223372036854775807], 0 < n.toInt)
+    ∧ [[(97 : UInt8), 0], [98]].flatten.length ≤ ([(2 : Int64), 9223372036854775807].map (·.toInt.toNat)).sum := by decide
+
 /-- Non-vacuity of the round trip: the hypotheses hold in a concrete world for 3 bytes incl. NUL written as
     "a\\0" + "b" and read back with counts 2 and INT64_MAX (the second read gets the 1 byte that is left). -/
 def w0 : World := { fs := { get := fun _ => none, maxOff := 1000 }, h := {} }
@@ -181,9 +215,6 @@ theorem file_read_count (w : World) (p : Path) (D : Bytes) (k : Nat) (n : Int64)
   simp [readAt, List.length_take]
 
 /-! ### refinement of the POSIX specification -/
-
-/-- the open file description a stream stands for -/
-def absF (w : World) (f : OFile) : Spec.File.SFile := ⟨(w.fs.get f.path).getD [], f.pos, f.app⟩
 
 /-- **file_refines_spec (write).** `fwrite` on a writable stream = `Spec.swrite` (pwrite at the offset, or at the end
     with O_APPEND; zero-filled gap after a seek beyond the end), for every content, position and data. -/
@@ -218,6 +249,86 @@ theorem file_refines_spec_seek (w : World) (f : OFile) (wh : Spec.File.Whence) (
                 ∧ (seekH w f wh off).1.fs = w.fs := by
   unfold seekH absF
   cases h : Spec.File.sseek w.fs.maxOff ⟨(w.fs.get f.path).getD [], f.pos, f.app⟩ wh off.toInt <;> simp [EINVAL, h]
+
+/-! ### refinement at the level of whole call sequences -/
+
+section Seq
+open BlocV.Spec.File (SStream SOp SRes sstep srun sline uptoLF)
+
+/-- **file_refines_spec.** For EVERY open handle (any mode, any content, any position) and EVERY list of stream calls —
+    `read` (string or bytes variant, any count: negative, zero, below / equal to / above the 4096-byte buffer), `readln`,
+    `write` (string or bytes), `seekset` / `seekcur` / `seekend` (any offset), `position`, `flush`, mixed in any order —
+    the answers of the module are the answers of the POSIX-level specification run on the abstraction of the handle
+    (`srun`), call by call, and the handle ends as the abstraction of the specification's final state: same content of
+    the file, same offset. Side condition: no call of the run answers `undefinedSeq`, i.e. the history stays outside
+    the recorded region `C18.file_update_without_reposition` (C11 7.21.5.3 p7). -/
+theorem file_refines_spec : ∀ (ops : List Op) (w : World) (f : OFile), w.h.file = some f →
+    (∀ op ∈ ops, StreamOp op) → (∀ r ∈ (run w ops).2, r ≠ .undefinedSeq) →
+    (run w ops).2 = (srun w.fs.maxOff (absS w f) (ops.map toS)).2.map resOf
+    ∧ ∃ f', (run w ops).1.h.file = some f' ∧ absS (run w ops).1 f' = (srun w.fs.maxOff (absS w f) (ops.map toS)).1 := by
+  intro ops
+  induction ops with
+  | nil => intro w f hf _ _; exact ⟨by simp [run, srun], f, by simpa [run] using hf, by simp [run, srun]⟩
+  | cons op ops ih =>
+    intro w f hf hops hu
+    rw [run_cons] at hu ⊢
+    have hu1 : (step w op).2 ≠ .undefinedSeq := hu _ (by simp)
+    obtain ⟨f1, h1, h2, h3, h4⟩ := step_refines w f hf op (hops op (by simp)) hu1
+    have := ih (step w op).1 f1 h1 (fun o ho => hops o (by simp [ho])) (fun r hr => hu r (by simp [hr]))
+    rw [h2, h3] at this
+    obtain ⟨ha, f', hb, hc⟩ := this
+    refine ⟨?_, f', hb, ?_⟩
+    · simp only [List.map_cons, srun, List.map_cons]
+      rw [ha, h4]
+    · simp only [List.map_cons, srun]
+      exact hc
+
+/-- **file_refines_spec for one-way streams**: on a handle opened without `+` (read-only or write-only stream) the side
+    condition of `file_refines_spec` holds by itself: EVERY list of stream calls refines the specification. -/
+theorem file_refines_spec_oneway : ∀ (ops : List Op) (w : World) (f : OFile), w.h.file = some f → (f.wr && f.rd) = false →
+    (∀ op ∈ ops, StreamOp op) → ∀ r ∈ (run w ops).2, r ≠ .undefinedSeq := by
+  intro ops
+  induction ops with
+  | nil => intro w f _ _ _ r hr; simp [run] at hr
+  | cons op ops ih =>
+    intro w f hf h1 hops r hr
+    rw [run_cons] at hr
+    have hu := step_oneway w f hf h1 op
+    obtain ⟨f1, g1, _, g3, _⟩ := step_refines w f hf op (hops op (by simp)) hu
+    have hfl := sstep_flags w.fs.maxOff (absS w f) (toS op)
+    rw [← g3] at hfl
+    have h1' : (f1.wr && f1.rd) = false := by
+      have e1 : f1.rd = f.rd := hfl.1
+      have e2 : f1.wr = f.wr := hfl.2
+      rw [e1, e2]; exact h1
+    simp only [List.mem_cons] at hr
+    rcases hr with rfl | hr
+    · exact hu
+    · exact ih (step w op).1 f1 g1 h1' (fun o ho => hops o (by simp [ho])) r hr
+
+/-- the hypotheses of `file_refines_spec` are satisfiable on a non-trivial history: a stream opened "r" on the file
+    `61 0a 62 63`: `readln`, `read(S, 1)`, `seekset(1)`, `write("XY")` (refused), `position()`, `flush()`, `seekend(-1)`,
+    `read(X, 5000)`, `read(S, -3)` — every call is a stream call and none answers `undefinedSeq`. -/
+def wSeq : World :=
+  { fs := { get := fun q => if q = [120] then some [97, 10, 98, 99] else none, maxOff := 1000 },
+    h := { file := some { path := [120], pos := 0, rd := true, wr := false, app := false }, path := [120], mode := [114], r := true, w := false } }
+
+def opsSeq : List Op :=
+  [.readln, .readS (some 1), .seekSet (some 1), .writeS (some [88, 89]), .position, .flush, .seekEnd (some (-1)), .readB (some 5000),
+   .readS (some (-3))]
+
+example : wSeq.h.file = some { path := [120], pos := 0, rd := true, wr := false, app := false } ∧ (∀ op ∈ opsSeq, StreamOp op)
+    ∧ (∀ r ∈ (run wSeq opsSeq).2, r ≠ .undefinedSeq) :=
+  ⟨rfl, by simp [opsSeq, StreamOp], file_refines_spec_oneway opsSeq wSeq _ rfl rfl (by simp [opsSeq, StreamOp])⟩
+
+/-- the specification side of that history, evaluated: line `61 0a`, then `62`, seek, refused write, offset 1, …, the last
+    byte, nothing for a negative count -/
+example : (srun 1000 ⟨⟨[97, 10, 98, 99], 0, false⟩, true, false, true, false⟩
+      [.readLine, .read 1, .seek .set 1, .write [88, 89], .tell, .sync, .seek .end_ (-1), .read 5000, .read (-3)]).2
+    = [.line (some [97, 10]), .data [98], .errno 0, .denied, .offset 1, .done, .errno 0, .data [99], .data []] := by
+  decide +kernel
+
+end Seq
 
 /-! ### readln -/
 
@@ -270,6 +381,68 @@ theorem file_readln_last (w : World) (p : Path) (D : Bytes) (k : Nat) (hs : RSta
   simp only [Option.getD_some, hscan]
   have hpos' : 0 < D.length - k := by simpa using hpos
   simp [hpos']
+
+/-- **file_readln_spec.** On a readable stream at ANY position of ANY content `readln` is the specification's line read:
+    FALSE (nothing stored) exactly at the end of the file, otherwise TRUE with `Spec.File.sline` of the unread part —
+    the bytes up to and including the first LF, but at most 4096 per call (NOT 4095: the buffer is not NUL-terminated) —
+    and the position moves by exactly that many bytes. (`sline_line`: a line shorter than 4096 ends with its LF;
+    `sline_full`: 4096 bytes without LF come back as one piece of exactly 4096; `sline_length_le`, `sline_prefix`.) -/
+theorem file_readln_spec (w : World) (p : Path) (D : Bytes) (k : Nat) (hs : RState w p D k) :
+    (step w .readln).2 = (if D.drop k = [] then .ln false none else .ln true (some (Spec.File.sline (D.drop k))))
+    ∧ RState (step w .readln).1 p D (k + (if D.drop k = [] then 0 else (Spec.File.sline (D.drop k)).length)) := by
+  obtain ⟨lst, hf, hr, hg⟩ := hs
+  obtain ⟨l, e⟩ := readlnH_shape w { path := cstr p, pos := k, rd := true, wr := false, app := false, last := lst }
+  simp only [step, hr, hf, badInput, Bool.not_true, Bool.false_eq_true, if_false, Bool.false_and]
+  rw [e]
+  by_cases hrest : D.drop k = []
+  · simp [lineD, hg, hrest, moved, RState, hr]
+  · simp [lineD, hg, hrest, moved, RState, hr]
+
+/-- the lines a client gets from repeated `readln` calls -/
+def linesOf : List Res → List Bytes
+  | [] => []
+  | .ln _ (some l) :: rs => l :: linesOf rs
+  | _ :: rs => linesOf rs
+
+/-- **file_readln_all.** Reading a file line by line loses nothing and invents nothing: for every content (NUL bytes,
+    CR, lines longer than the 4096-byte buffer, no final LF) and every start position, the lines stored by `n` consecutive
+    `readln` calls, concatenated, are exactly the unread part of the file, as soon as `n` is at least its length. -/
+theorem file_readln_all (p : Path) (D : Bytes) : ∀ (n : Nat) (w : World) (k : Nat), RState w p D k → (D.drop k).length ≤ n →
+    (linesOf (run w (List.replicate n .readln)).2).flatten = D.drop k := by
+  intro n
+  induction n with
+  | zero =>
+    intro w k _ hl
+    have : D.drop k = [] := List.eq_nil_of_length_eq_zero (by omega)
+    simp [run, linesOf, this]
+  | succ n ih =>
+    intro w k hs hl
+    have h := file_readln_spec w p D k hs
+    rw [List.replicate_succ, run_cons]
+    by_cases hrest : D.drop k = []
+    · simp only [hrest, if_true, Nat.add_zero] at h
+      have := ih (step w .readln).1 k h.2 (by simp [hrest])
+      simp only [h.1, linesOf, this]
+    · simp only [hrest, if_false] at h
+      have hpos := sline_length_pos (D.drop k) hrest
+      have hpre := sline_prefix (D.drop k)
+      have hd : D.drop (k + (Spec.File.sline (D.drop k)).length) = (D.drop k).drop (Spec.File.sline (D.drop k)).length := by
+        rw [List.drop_drop]
+      have hlen : (D.drop (k + (Spec.File.sline (D.drop k)).length)).length ≤ n := by
+        rw [hd, List.length_drop]; omega
+      have := ih (step w .readln).1 _ h.2 hlen
+      simp only [h.1, linesOf, List.flatten_cons, this, hd]
+      exact hpre.symm
+
+/-- the hypotheses of `file_readln_spec` / `file_readln_all` hold after `open(p, "r")` of an existing file -/
+def wL : World := { fs := { get := fun q => if q = [120] then some [97, 10, 98] else none, maxOff := 1000 }, h := {} }
+
+example : RState (step wL (.open (some [120]) (some modeR))).1 [120] [97, 10, 98] 0 ∧ (([97, 10, 98] : Bytes).drop 0).length ≤ 5 :=
+  ⟨(step_open_r wL [120] [97, 10, 98] (by simp [wL, cstr])).2.1, by decide⟩
+
+example : Spec.File.sline [97, 0, 98, 10, 99] = [97, 0, 98, 10] ∧ Spec.File.sline [97, 98] = [97, 98]
+    ∧ (Spec.File.sline (List.replicate 5000 120)).length = 4096 ∧ (Spec.File.sline (List.replicate 4095 120 ++ [10, 121])).length = 4096
+    ∧ (Spec.File.sline (List.replicate 4096 120 ++ [10, 121])).length = 4096 := by decide +kernel
 
 /-- a NUL byte is data: the bytes 61 00 62 0a 63 read as the line 61 00 62 0a (was: "a", then "b\n") -/
 example : readlnScan [97, 0, 98, 10, 99] 0 [] 0 = ([97, 0, 98, 10], 4, .lf)
@@ -423,6 +596,27 @@ theorem sqlite_not_preserved :
     ∧ (bindOf false (.null .integer)).map fetchOf = some (.null .noType)
     ∧ bindOf false .obj = none := by decide
 
+/-- **sqlite_roundtrip_iff** — the EXACT exception list. For every BLOC value `v` and both buffer states of empty vectors:
+    binding `v` and fetching it back yields `v` again (content and type) IF AND ONLY IF `v` is storable (any integer, any
+    non-NaN decimal, any string, any non-empty bytes), or the empty bytes value WITH a buffer, or the untyped null. Everything
+    else is changed: booleans (→ integer), NaN (→ untyped null), empty buffer-less bytes (→ untyped null), typed nulls
+    (→ untyped null), objects (not bound) — the recorded findings `C18.sqlite_bool_as_integer`, `…nan_as_null`,
+    `…empty_bytes_as_null`, `…unbound_item_keeps_old_binding`. -/
+theorem sqlite_roundtrip_iff (eb : Bool) (v : BVal) :
+    (∃ s, bindOf eb v = some s ∧ fetchOf s = v) ↔ (Storable v ∨ (v = .bytes [] ∧ eb = true) ∨ v = .null .noType) := by
+  cases v with
+  | null t => cases t <;> simp [bindOf, fetchOf, Storable]
+  | bool b => simp [bindOf, fetchOf, Storable]
+  | int i => simp [bindOf, fetchOf, Storable]
+  | dec d =>
+    cases hd : isNaN d <;> simp [bindOf, fetchOf, Storable, hd]
+  | str s => simp [bindOf, fetchOf, Storable]
+  | bytes b =>
+    by_cases hb : b = []
+    · subst hb; cases eb <;> simp [bindOf, fetchOf, Storable]
+    · simp [bindOf, fetchOf, Storable, hb]
+  | obj => simp [bindOf, Storable]
+
 /-- the full path through the state machine: `exec("INSERT …", tup(v))` then `query("SELECT a, typeof(a) FROM t")`,
     and `prepare / bind / execute` (argument tuple temporary or not), then `prepare / execute / fetch`: the value comes back -/
 theorem sqlite_insert_query_roundtrip (eb temp : Bool) (v : BVal) (s : SVal) (hb : bindOf eb v = some s) (hf : fetchOf s = v)
@@ -445,6 +639,45 @@ example : bindOf false (.str [97, 0, 98]) = some (.text [97, 0, 98]) ∧ fetchOf
 theorem sqlite_args_total (w : Sqlite.World) (op : Sqlite.Op) : ∀ z, (Sqlite.step w op).2 ≠ .hazard z := by
   intro z
   cases op <;> simp only [Sqlite.step, closeH] <;> (repeat' split) <;> simp
+
+/-- **sqlite_stepfail_rebind.** A step-time failure does not poison the prepared statement: in ANY state with an open
+    connection, the table `t(a NOT NULL)` and an INSERT statement prepared whose parameter is NULL, `execute()` fails with
+    SQLite's error (BLOC error EXC_RT_USER_S) and changes NOTHING — no row, same status; a following `bind(tup(v))`
+    (argument tuple temporary or not) with any value `v` that is bound to a non-NULL storage class succeeds, and the next
+    `execute()` on the SAME statement stores exactly that value (not the stale NULL); a second failing `execute()` in
+    between changes nothing either. -/
+theorem sqlite_stepfail_rebind (w : Sqlite.World) (s : Stmt) (rows : List SVal) (v : BVal) (x : SVal) (temp : Bool)
+    (ho : w.h.isOpen = true) (hs : w.h.stmt = some s) (hk : s.kind = .insert) (ht : w.table = some rows)
+    (hn : w.notNull = true) (hnull : s.binding = .null) (hb : bindOf w.emptyBuf v = some x) (hx : x ≠ .null) :
+    Sqlite.step w .execute = (w, .sqlErr)
+    ∧ (Sqlite.run w [.execute, .execute, .bind (some [v]) temp, .execute]).2 = [.sqlErr, .sqlErr, .bool true, .bool true]
+    ∧ (Sqlite.run w [.execute, .execute, .bind (some [v]) temp, .execute]).1.table = some (rows ++ [x])
+    ∧ (Sqlite.run w [.execute, .execute, .bind (some [v]) temp, .execute]).1.h.status = .done := by
+  have e1 : Sqlite.step w .execute = (w, .sqlErr) := by
+    simp [Sqlite.step, ho, hs, hk, ht, hn, hnull]
+  let w2 : Sqlite.World := { w with h := { w.h with stmt := some { s with binding := x, cursor := [] }, status := .new } }
+  have e2 : Sqlite.step w (.bind (some [v]) temp) = (w2, .bool true) := by
+    simp [Sqlite.step, ho, hs, hk, bindArgs, hb, hnull, w2]
+  have e3 : Sqlite.step w2 .execute
+      = ({ w2 with table := some (rows ++ [x]), h := { w2.h with status := .done } }, .bool true) := by
+    simp [Sqlite.step, ho, hk, ht, hn, hx, w2]
+  refine ⟨e1, ?_, ?_, ?_⟩ <;> simp only [Sqlite.run, e1, e2, e3]
+
+/-- … and the one-step form: `exec("INSERT …", tup(v))` of a value stored as NULL into `t(a NOT NULL)` fails and stores
+    nothing (no cursor on a row). -/
+theorem sqlite_stepfail_exec (w : Sqlite.World) (rows : List SVal) (v : BVal)
+    (ho : w.h.isOpen = true) (ht : w.table = some rows) (hn : w.notNull = true) (hc : w.h.cursorActive = false)
+    (hb : bindOf w.emptyBuf v = some .null) :
+    Sqlite.step w (.insert (some [v])) = (w, .sqlErr) := by
+  simp [Sqlite.step, ho, ht, hn, hc, bindArgs, hb]
+
+/-- the hypotheses are satisfiable: `open, CREATE TABLE t(a NOT NULL), prepare(INSERT)` reaches such a state (the
+    parameter of a fresh statement is NULL), `"two"` is bound as TEXT; a NaN / typed null is stored as NULL -/
+example : let w := (Sqlite.run {} [.open, .createNN, .prepare (some .insert)]).1
+    w.h.isOpen = true ∧ w.h.stmt = some { kind := .insert } ∧ w.table = some [] ∧ w.notNull = true
+    ∧ bindOf w.emptyBuf (.str [116, 119, 111]) = some (.text [116, 119, 111]) ∧ SVal.text [116, 119, 111] ≠ .null
+    ∧ bindOf w.emptyBuf (.dec 0x7ff8000000000000) = some .null ∧ bindOf w.emptyBuf (.null .integer) = some .null
+    ∧ w.h.cursorActive = false := by decide +kernel
 
 /-- **close forgets the statement**: after `close()` there is no statement and the status is NEW, whatever was prepared -/
 theorem sqlite_close_forgets (w : Sqlite.World) (h : w.h.isOpen = true) :
